@@ -347,7 +347,9 @@ def expandElementalMassFracsToNuclides(
         expandedNucs = expandElementalNuclideMassFracs(
             element, massFrac, isotopicSubset
         )
-        massFracs.update(expandedNucs)
+        for nucName, expandedFrac in expandedNucs.items():
+            # an isotope may also be given explicitly next to its element: add, do not overwrite
+            massFracs[nucName] = massFracs.get(nucName, 0.0) + expandedFrac
 
         total = sum(expandedNucs.values())
         if massFrac > 0.0 and abs(total - massFrac) / massFrac > 1e-6:
